@@ -649,6 +649,43 @@ func (c *caseRun) doRun() {
 	c.step("run", "run", "ok")
 }
 
+// doLegacy: a heads entry as old versions wrote it (non-derived, heads = [id], no common snapshot) appears
+// in the stored heads table for an id that has no entry yet. Only for ids that are neither a bound child nor
+// the parent of one (bound children did not exist in those versions).
+func (c *caseRun) legacyOK(k int) bool {
+	if c.prev[k].entry || c.parents[k] >= 0 {
+		return false
+	}
+	for _, p := range c.parents {
+		if p == k {
+			return false
+		}
+	}
+	return true
+}
+
+func (c *caseRun) doLegacy(k int) {
+	if !c.legacyOK(k) {
+		return
+	}
+	id := c.w.objs[k].id
+	err := c.w.local.st.HeadStorage().UpdateEntry(ctx, headstorage.HeadsUpdate{Id: id, Heads: []string{id}})
+	c.step(fmt.Sprintf("legacy %d", k), "legacy", errEnum(err))
+}
+
+// doRunFault: a deletion-worker pass during which every write transaction of the storage fails.
+func (c *caseRun) doRunFault() {
+	c.w.local.db.failWrites = true
+	deletionmanager.VerifRunDeleter(ctx, c.w.delMgr)
+	c.w.local.db.failWrites = false
+	if c.w.fetchIdx >= 0 {
+		c.workerRan = true
+	}
+	c.r.CountN("fault.write_tx_failed", c.w.local.db.failed)
+	c.w.local.db.failed = 0
+	c.step("runf", "runfault", "ok")
+}
+
 // doCrash: the process dies inside a deletion-worker pass, right after the first queued id was marked
 // Deleted and before its bound children were handled (the worker's context is cancelled at that point,
 // which makes deleteBoundChildren and the outer loop return), then the peer restarts.
